@@ -225,3 +225,75 @@ def split_literals(test, polarity):
             return out
         return [(test, polarity)]        # a disjunction that holds: kept whole
     return [(test, polarity)]
+
+
+# ---------------------------------------------------------------------------------------------------------------------
+# values carried from one loop iteration into the next
+# ---------------------------------------------------------------------------------------------------------------------
+def loop_carried(fn_node):
+    """(loop, name) pairs: a local that the loop body assigns only under a condition (in a handler / under an if), reads
+    elsewhere in the body, and that was initialised before the loop - its value in one iteration can be the one a previous
+    iteration left behind.  Accumulators (augmented assignments) and names re-initialised unconditionally at the top level of
+    the body are not reported."""
+    out = []
+    for lp in [n for n in walk_own(fn_node) if isinstance(n, (ast.For, ast.While))]:
+        top = set()
+        for s in lp.body:
+            if isinstance(s, ast.Assign):
+                for t in s.targets:
+                    for x in ast.walk(t):
+                        if isinstance(x, ast.Name):
+                            top.add(x.id)
+        if isinstance(lp, ast.For):
+            top |= {x.id for x in ast.walk(lp.target) if isinstance(x, ast.Name)}
+        aug = {n.target.id for s in lp.body for n in ast.walk(s) if isinstance(n, ast.AugAssign) and isinstance(n.target, ast.Name)}
+        cond = set()
+        for s in lp.body:
+            for c in ast.walk(s):
+                blocks = []
+                if isinstance(c, ast.If):
+                    blocks = [c.body, c.orelse]
+                elif isinstance(c, ast.Try):
+                    blocks = [h.body for h in c.handlers]
+                for b in blocks:
+                    for st in b:
+                        for x in ast.walk(st):
+                            if isinstance(x, ast.Name) and isinstance(x.ctx, ast.Store):
+                                cond.add(x.id)
+                            elif isinstance(x, ast.ExceptHandler) and x.name:
+                                pass
+        reads = {x.id for s in lp.body for x in ast.walk(s) if isinstance(x, ast.Name) and isinstance(x.ctx, ast.Load)}
+        before = set()
+        for n in walk_own(fn_node):
+            if isinstance(n, ast.Name) and isinstance(n.ctx, ast.Store) and getattr(n, 'lineno', 0) < lp.lineno:
+                before.add(n.id)
+        for name in sorted((cond - top - aug) & reads & before):
+            out.append((lp, name))
+    return out
+
+
+def ctor_calls_agree_clause(ctx, res, clause, prop, cid, cls_name):
+    """wherever the package constructs cls_name from values that carry the name of one of its options (copying, forwarding),
+    each value goes to the option of that name"""
+    repo = ctx.repo
+    cls = repo.find_class(cls_name)
+    init = cls.lookup('__init__') if cls is not None else None
+    if init is None:
+        raise AnalysisError('anchor-lost constructor of %s' % cls_name)
+    params = [p for p in init.params if p != 'self']
+    n_calls = 0
+    for f in repo.all_functions():
+        for n in ast.walk(f.node):
+            if not (isinstance(n, ast.Call) and norm(n.func).split('.')[-1] == cls_name):
+                continue
+            n_calls += 1
+            pairs = [(params[i], a) for i, a in enumerate(n.args) if i < len(params)] + [(k.arg, k.value) for k in n.keywords if k.arg]
+            for p, a in pairs:
+                nm = a.attr if isinstance(a, ast.Attribute) else (a.id if isinstance(a, ast.Name) else None)
+                if nm is not None and nm.lstrip('_') in params and nm.lstrip('_') != p:
+                    clause.instance('%s(...) in %s: `%s` goes to option `%s`' % (cls_name, f.qualname, norm(a), p), f.qualname, False)
+                    res.add(Finding(prop, cid, 'R-PROV', f.file, f.qualname, n.lineno, norm(n)[:120],
+                                    '%s builds a %s in which `%s` is passed as the option `%s`: the two options are swapped, so the object does not '
+                                    'carry the configuration it was built from' % (f.qualname, cls_name, norm(a), p)))
+    clause.instance('%d construction(s) of %s in the package pass same-named values to same-named options' % (n_calls, cls_name), cls_name, True)
+    clause.evaluations += n_calls
